@@ -4,8 +4,8 @@ from __future__ import annotations
 from checks import ctxcommon
 
 PROP = "C01"
-GENERATED = ['OpSemantics', 'DtypeTables', 'Core', 'EvalLoop', 'SrcExpand', 'SrcShape', 'DimFlags']  # generated files this check's tie depends on
-LEAN_MODULES = ["Properties.C01", "Properties.C03p", "Properties.Core", "Properties.CoreEval", "Properties.Prov.Expand", "Properties.Prov.Shape"]
+GENERATED = ['OpSemantics', 'DtypeTables', 'Core', 'EvalLoop', 'SrcExpand', 'SrcShape', 'DimFlags', 'ShapeLoop']  # generated files this check's tie depends on
+LEAN_MODULES = ["Properties.C01", "Properties.C03p", "Properties.Core", "Properties.CoreEval", "Properties.Prov.Expand", "Properties.Prov.Shape", "Properties.CoreShape"]
 RULE = (
     "corpus (witnesses of past findings) first; then seeded contexts: pick an assignment of sizes to names a,b,d (c,e derived) and tuples to "
     "groups g,h, pick 1-4 annotated tensors over a 22-form dimension alphabet (literal, name, name=literal, name=expression, expression, "
